@@ -179,10 +179,10 @@ func (f *Formatter) formatComment(comments ast.Comments, sep string, level int) 
 		if !isMacro {
 			buf.WriteString(f.indent(level))
 		}
-		text := comments[i].String()
-		if f.insideCondition > 0 {
-			text = protectLineFeeds(text)
-		}
+		// The line feeds of a block comment are not layout: like those of a string literal they are
+		// protected while the text is laid out (line trimming and indentation in conditions,
+		// empty line squeezing everywhere) and restored by Format()
+		text := protectLineFeeds(comments[i].String())
 		switch {
 		case isMacro:
 			// the macro is recognised by its exact "#FASTLY" prefix, never restyle it
